@@ -230,6 +230,10 @@ func baseIntrinsics() map[string]intrinsicFn {
 		m["("+dv+"TimeLog)."+n] = nop
 		m["(*"+dv+"TimeLog)."+n] = nop
 	}
+	m[dv+"NewUUID"] = func(in *Interp, fn *ssa.Function, args []Value) Value {
+		in.freshSeq++
+		return in.strConst(fmt.Sprintf("%032x", 0xf0000000+in.freshSeq))
+	}
 	m[dv+"NewTimeLog"] = func(in *Interp, fn *ssa.Function, args []Value) Value { return in.zeroResults(fn) }
 	for _, n := range []string{"fmt.Printf", "fmt.Println", "fmt.Print", "fmt.Fprintf", "fmt.Fprintln", "fmt.Fprint", "log.Printf", "log.Println", "log.Print",
 		"runtime.KeepAlive", "runtime.GC", "runtime.Gosched", "runtime/debug.FreeOSMemory", "runtime.SetFinalizer", "runtime/debug.PrintStack"} {
